@@ -108,6 +108,11 @@ class FamilyCfg(Cfg):
 def judge_spec(v, listed):
     if v.get("S") == "0" and not (set(v["K"]) & listed):
         return ("violation", "result or final state differs from the abstract specification (S=0), no listed classifier fires: K=" + ",".join(v["K"]))
+    if v.get("S") == "0" and v.get("A") == "0":
+        # a listed classifier fires, but the implementation does not deviate the way the listed finding does:
+        # the model reproduces every listed defect exactly, and here implementation and model differ
+        return ("violation", "result or final state differs from the abstract specification (S=0) and from the model of the listed finding "
+                "(A=0): a new deviation in a situation where K=" + ",".join(v["K"]) + " is listed")
     if v.get("A") == "0" and v.get("S") != "0":
         return ("corr", "model and implementation disagree at the abstract level (A=0) although the step conforms to the specification")
     if v.get("M") == "0" and (set(v["D"]) & {"out", "children", "keys"}):
@@ -400,6 +405,18 @@ class C11(CrossCfg):
         out = CrossCfg.streams(self, tier, seed, search)
         for sp in out:
             sp["args"] = sp["args"] + ["-views"]
+        # the structural rules under stress that random traces do not reach: 70 insertions at one position
+        # (list positions must stay distinct, D03 refuses the 54th), committed transactions included
+        sc = ""
+        for mode in ("db", "tx"):
+            sc += f"@views\n--- {mode}\n!list.PushBack {K1} {EA}\n!list.PushBack {K1} {EB}\n"
+            for i in range(70):
+                sc += f"list.InsertBefore {K1} {EB} {EC}\n"
+            sc += f"list.Len {K1}\nlist.Range {K1} 0 -1\n--- {mode}\n!list.PushBack {K1} {EA}\n!list.PushBack {K1} {EB}\n"
+            for i in range(70):
+                sc += f"list.InsertAfter {K1} {EA} {EC}\n"
+            sc += f"list.Len {K1}\nlist.Range {K1} 0 -1\n"
+        out.append(dict(kind="script", script=sc))
         return out
 
     def judge(self, op, v, mode):
